@@ -56,14 +56,15 @@
       the directive's argument cannot be coerced, the selection is left out with an error).  Such
       requests get [PUnevaluable r]: the executor model's answer, compared by the check, with no
       theorem about it ([request_evaluable] is the hypothesis of [C03_pipeline_total]).
-    - Outside the composition: asynchronous resolvers (C02), the serialiser itself (encoding/json; [json_finite] is the condition under
+    - Outside the composition: the serialiser itself (encoding/json; [json_finite] is the condition under
       which it accepts a number), stack depth of the Go runtime.  For these the glue theorems of
       round 1 (…_partial below) and the hostile stream remain the evidence. *)
 From Coq Require Import List NArith.
 From ApiFu Require Import Base.Sexp.
 From ApiFu Require Syn.Ast Syn.ParserModel Syn.FrontEnd Vld.Ast Vld.ValidatorModel Vld.ProofsCommon Val.Values ExeA.ArgData ExeA.ArgArgs ExeA.ArgModel ExeA.ArgSpec ExeA.ArgHyps.
 From ApiFu Require Vld.MemoEquiv.
-From ApiFu Require Import Pipe.PipelineModel Pipe.PipelineProofs Pipe.Convert Pipe.Compose Pipe.SchemaAgree Pipe.PositionsProofs Pipe.FieldPositions Pipe.ComposeProofs Pipe.CondsProofs Pipe.TypingProofs Pipe.CostCompose Pipe.CostComposeProofs Pipe.AcyclicProofs Pipe.InvariantProofs Pipe.SubscribeCompose Pipe.SubscribeProofs.
+From ApiFu Require Import Pipe.PipelineModel Pipe.PipelineProofs Pipe.Convert Pipe.Compose Pipe.SchemaAgree Pipe.PositionsProofs Pipe.FieldPositions Pipe.ComposeProofs Pipe.CondsProofs Pipe.TypingProofs Pipe.CostCompose Pipe.CostComposeProofs Pipe.AcyclicProofs Pipe.InvariantProofs Pipe.SubscribeCompose Pipe.SubscribeProofs Pipe.AsyncProofs.
+From ApiFu Require Fut.Plan Fut.ExecAsync Fut.AsyncRun Fut.FutSpec Fut.FutProofs Fut.BridgeC01.
 Import ListNotations.
 
 (** ** the composed model, from bytes *)
@@ -292,6 +293,31 @@ Theorem C03_subscribe_never_crashes : forall pi VS F ES bs opname raw W,
   match subscribe_order pi VS F ES bs opname raw W with SubPanic _ | SubOutOfFuel _ => False | _ => True end.
 Proof. exact subscribe_never_crashes. Qed.
 
+(** ** asynchronous resolvers inside the composition.
+    Whenever the composed model executes a request ([PExecuted data errs]: operation selected,
+    variables coerced, contract checks passed), then for EVERY choice of resolvers that answer
+    through promises ([root]: any plan with the same outcomes as the one C01's world denotes) and
+    EVERY fair idle handler [sigma], the asynchronous executor model of C02 (executor.go +
+    future.go) finishes — it is never stuck and never out of fuel with one idle round per
+    promise — with the same data, and its errors conform to the plan (exactly one admissible
+    error for every visible failure-null).  C02_every_schedule_yields_ExecuteRequest_response
+    through the composition: its hypotheses are the dynamic checks of the composed model. *)
+Theorem C03_async_resolvers_same_data : forall pi VS F ES bs opname raw W d o vv data errs
+    (code : ExeA.ArgData.json -> BinNums.Z) md root sigma fuelr jfuel,
+  schema_accepted ES = true ->
+  parse_and_validate_order pi VS F bs = FAccepted d ->
+  ExeA.ArgModel.get_operation (exe_of_syn d) opname = ExeA.ArgModel.GOp o ->
+  ExeA.ArgModel.coerce_request_vars ES o raw = Val.Values.Ok vv ->
+  pipeline_order pi VS F ES bs opname raw W = PExecuted data errs ->
+  let D := ExeA.ArgData.doc_of (exe_of_syn d) o vv in
+  let E := ExeA.ArgArgs.env_of_vars vv in
+  Fut.FutSpec.same_outcomes root (Fut.BridgeC01.plan_of code ES D E (ExeA.ArgModel.default_fuel D) W) ->
+  Fut.AsyncRun.fair sigma -> (Fut.Plan.count_async root <= fuelr)%nat -> (Fut.FutProofs.resp_depth root < jfuel)%nat ->
+  exists r, Fut.ExecAsync.run Fut.ExecAsync.fixed_flags sigma md fuelr jfuel root = Fut.ExecAsync.Done r /\
+            Fut.ExecAsync.r_data r = Fut.BridgeC01.tr_data code data /\
+            Fut.FutSpec.conforms root (Fut.ExecAsync.r_data r) (Fut.ExecAsync.r_errors r).
+Proof. exact async_pipeline_total. Qed.
+
 (** ** the glue of graphql.go over observed stage verdicts (round 1; still what covers Subscribe,
     the cost rule, argument coercion and everything else outside the composed model) *)
 Theorem C03_execute_total_partial : forall p v e,
@@ -334,6 +360,7 @@ Print Assumptions C03_invariant_from_doc_ok.
 Print Assumptions C03_pipeline_response_partial.
 Print Assumptions C03_validate_with_cost_never_crashes.
 Print Assumptions C03_subscribe_never_crashes.
+Print Assumptions C03_async_resolvers_same_data.
 Print Assumptions C03_execute_total_partial.
 Print Assumptions C03_execute_data_or_errors_partial.
 Print Assumptions C03_subscribe_total_partial.
